@@ -3,30 +3,53 @@ C06 — Data codewords follow the ISO bit-stream encoding bit for bit.
 
 Tier K (regenerated tables): `KEEP_LAST[i] = 2^i - 1`, pad bytes 11101100 / 00010001, count widths =
 ISO Table 3 (`C05_tables`), alphanumeric values = ISO Table 5 (`C09_tables`).
-Symbolic: `Proofs/CompactSound.lean` — the byte-level `push_bits` / `push_u8` refine "append the
-k low bits, most significant first" under the invariant "bits beyond `len` are zero".
+Symbolic, for EVERY payload of the mode's alphabet, every mode, level and version it fits:
+* `C06_push_bits`   : the byte-level `push_bits` (shifts, masks, `|=`, the `push_u8` loop, `+=`) appends
+                      exactly the `w` low bits of its argument, most significant first, for every width
+                      ≤ 64 and every alignment, keeps "bits beyond len are zero", never traps or resizes.
+* `C06_segment`     : `encode::encode` produces segment ++ terminator(min 4) ++ zero bits to the byte ++
+                      pad codewords from 11101100, with no trap (`add_terminator` cannot wrap).
+* `C06_bitstream`   : the first `data_codewords(v, l)` bytes of the buffer are exactly
+                      `Spec.Bitstream.codewords` — the ISO 7.4 data codewords: 4-bit mode indicator,
+                      count of the width of the version class, digits 3/10 2/7 1/4, alphanumeric pairs
+                      45a+b in 11 bits and a 6-bit tail, bytes in 8 bits, terminator, bit padding, pads.
 -/
-import FastQr.Finite.TablesMisc
-import FastQr.Proofs.Lift
-import FastQr.Props.C05
+import FastQr.Proofs.C06Tables
+import FastQr.Proofs.EncodeSound
 import FastQr.Model.Encode
 import FastQr.Spec.Bitstream
 
 namespace FastQr.Props.C06
 open FastQr Model Spec Finite Proofs
 
-theorem C06_keep_last {i : Nat} (hi : i < 65) : T.keepLast i = 2 ^ i - 1 := by
-  simpa using all_range keepLastOk_true i hi
+/-- **C06 (bit-buffer law)** -/
+theorem C06_push_bits (c : Compact) (b w : Nat) (hinv : CompactSound.Inv c) (hw : w ≤ 64)
+    (hroom : (c.len + w) / 8 + 1 < c.data.size) :
+    (Compact.pushBits c b w).traps = [] ∧
+    EncodeSound.bitsOf (Compact.pushBits c b w).val = EncodeSound.bitsOf c ++ Bitstream.toBits w b ∧
+    CompactSound.Inv (Compact.pushBits c b w).val :=
+  let h := EncodeSound.pushBits_appL c b w hinv hw hroom
+  ⟨h.1, h.2.bits, h.2.2.2.1⟩
 
-theorem C06_pad_bytes : T.padBytes = (0xEC, 0x11) := by simpa [padOk] using padOk_true
+/-- **C06 (segment, terminator, padding)** -/
+theorem C06_segment (inp : List Nat) (l : ECL) (m : Mode) (v : Nat) (hv : v < 40)
+    (hb : Spec.IsBytes inp) (halpha : Spec.alphabetOK m inp = true) (hfit : Spec.fits m l v inp.length = true) :
+    (encode inp l m v).traps = [] ∧
+    EncodeSound.bitsOf (encode inp l m v).val =
+      Bitstream.segment m v inp ++
+        List.replicate (EncodeSound.termLen l v (Bitstream.segment m v inp).length) false ++
+        List.replicate (EncodeSound.padLen l v (Bitstream.segment m v inp).length) false ++
+        ((List.range (EncodeSound.padCount l v (Bitstream.segment m v inp).length)).map EncodeSound.padByte).flatMap
+          (Bitstream.toBits 8) :=
+  let h := EncodeSound.encode_bits inp l m v hv hb halpha hfit
+  ⟨h.1, h.2.1⟩
 
-theorem C06_count_width {v : Nat} (hv : v < 40) (m : Mode) : T.cciBits m v = Spec.cciBits m v :=
-  (C05.C05_tables hv .L m).2.2
-
-/-- width of every count field is at most 16, so every `push_bits` call site uses a width ≤ 16 -/
-theorem C06_widths {v : Nat} (hv : v < 40) (m : Mode) : T.cciBits m v ≤ 16 := by
-  rw [C06_count_width hv m]
-  cases m <;> simp only [Spec.cciBits] <;> split <;> (try split) <;> omega
+/-- **C06 (data codewords = ISO 7.4)** -/
+theorem C06_bitstream (inp : List Nat) (l : ECL) (m : Mode) (v : Nat) (hv : v < 40)
+    (hb : Spec.IsBytes inp) (halpha : Spec.alphabetOK m inp = true) (hfit : Spec.fits m l v inp.length = true) :
+    (encode inp l m v).traps = [] ∧
+    (encode inp l m v).val.data.toList.take (T.dataCodewords l v) = Bitstream.codewords m v l inp :=
+  EncodeSound.encode_codewords inp l m v hv hb halpha hfit
 
 /-! sanity of the spec encoder on the ISO worked example "01234567" (version 1-M):
 0001 0000001000 0000001100 0101011001 1000011 + terminator + padding -/
